@@ -371,6 +371,9 @@ func runPartA(r *ev.Run) {
 	sets := labelSetsUpTo3(names, values)
 	a.sets = len(sets)
 	for _, set := range sets {
+		if r.Expired() {
+			break // internal deadline (loaded machine): exhaustive:false, exit 0
+		}
 		if !ir.DistinctAfterSanitisation(set) {
 			continue
 		}
@@ -556,6 +559,9 @@ func runPartA2(r *ev.Run, a *partA) {
 		sp := &speakers[si]
 		if strings.HasPrefix(sp.Name, "loki_json~") || sp.Name == "loki_json_with_ttl_label" {
 			continue
+		}
+		if r.Expired() {
+			break
 		}
 		for _, l1 := range lists {
 			a.evalA2(sp, replayA2{Part: "a2", Speaker: sp.Name, Streams: [][]int{append([]int{0}, l1...)}})
